@@ -2,10 +2,10 @@ package vc
 
 import (
 	"fmt"
-	"math/big"
 	"go/ast"
 	"go/token"
 	"go/types"
+	"math/big"
 	"sort"
 	"strings"
 )
@@ -77,14 +77,14 @@ type Obligation struct {
 	// expectation: a canary is expected to be satisfiable
 	Canary bool
 	// result
-	Status  string // unsat | sat | unknown | timeout | error
-	Solver  string
-	TimeS   float64
-	Model   string
-	Output  string
-	SMTFile string
-	vc      *VC
-	Pruned  bool
+	Status      string // unsat | sat | unknown | timeout | error
+	Solver      string
+	TimeS       float64
+	Model       string
+	Output      string
+	SMTFile     string
+	vc          *VC
+	Pruned      bool
 	triedPruned bool
 	triedGround bool
 }
@@ -147,34 +147,35 @@ type VC struct {
 	Mode     string
 	Name     string
 
-	decls    []string
-	declSet  map[string]bool
-	facts    []string
-	nfresh   int
-	Obls     []*Obligation
-	Errs     []string
-	alloc0   Term
-	heaps0   map[string]Term
-	heapSort map[string]Sort
-	modLocs  []modLoc
-	checkFrm bool
-	depth    int
-	oblCount map[string]int
-	Trusted  map[string]bool
-	Inlined  map[string]bool
-	usedGhost map[string]bool
-	ghostOrder []string
-	stack    []string
-	noSafety bool
+	decls         []string
+	declSet       map[string]bool
+	facts         []string
+	nfresh        int
+	Obls          []*Obligation
+	Errs          []string
+	alloc0        Term
+	heaps0        map[string]Term
+	heapSort      map[string]Sort
+	modLocs       []modLoc
+	checkFrm      bool
+	depth         int
+	oblCount      map[string]int
+	Trusted       map[string]bool
+	Inlined       map[string]bool
+	usedGhost     map[string]bool
+	ghostOrder    []string
+	stack         []string
+	noSafety      bool
 	CallsContract map[string]bool
-	UsedLemmas map[string]bool
-	nbound int
-	factKeys map[int][]string
-	defs      map[string]Term      // named terms introduced by define
-	heapDef   map[string]heapStore // structure of named heaps (single-cell stores, fresh arrays)
-	freshRefs map[string]bool      // identities returned by allocRef (pairwise distinct)
-	oldVals   map[string]bool      // slice-valued parameters (their arrays were allocated before the call)
-	addrTaken map[*types.Var]bool  // local scalar/slice variables whose address is taken somewhere: boxed at declaration
+	UsedLemmas    map[string]bool
+	nbound        int
+	factKeys      map[int][]string
+	defs          map[string]Term      // named terms introduced by define
+	heapDef       map[string]heapStore // structure of named heaps (single-cell stores, fresh arrays)
+	freshRefs     map[string]bool      // identities returned by allocRef (pairwise distinct)
+	oldVals       map[string]bool      // slice-valued parameters (their arrays were allocated before the call)
+	subFuncs      []string             // embedded-struct identity functions declared so far
+	addrTaken     map[*types.Var]bool  // local scalar/slice variables whose address is taken somewhere: boxed at declaration
 }
 
 // heapStore records how a named heap was obtained from its predecessor.
@@ -547,11 +548,11 @@ func (vc *VC) heapInvariant(h Term, alloc Term, pc Term) {
 	case HeapSort(SIface):
 		b, i := Term{"b?", SInt}, Term{"i?", SInt}
 		cell := Select(Select(h, b), i)
-		vc.assumeGlobal(Implies(pc, Forall([]Term{b, i}, [][]Term{{cell}}, And(Lt(IVal(cell), alloc), Ge(ITag(cell), IntLit(0))))))
+		vc.assumeGlobal(Implies(pc, Forall([]Term{b, i}, [][]Term{{cell}}, And(Lt(IVal(cell), alloc), Ge(ITag(cell), IntLit(0)), Implies(Eq(ITag(cell), IntLit(0)), Eq(IVal(cell), IntLit(0)))))))
 	case ArrSort(SIface):
 		r := Term{"r?", SInt}
 		cell := Select(h, r)
-		vc.assumeGlobal(Implies(pc, Forall([]Term{r}, [][]Term{{cell}}, And(Lt(IVal(cell), alloc), Ge(ITag(cell), IntLit(0))))))
+		vc.assumeGlobal(Implies(pc, Forall([]Term{r}, [][]Term{{cell}}, And(Lt(IVal(cell), alloc), Ge(ITag(cell), IntLit(0)), Implies(Eq(ITag(cell), IntLit(0)), Eq(IVal(cell), IntLit(0)))))))
 	}
 }
 
@@ -658,6 +659,17 @@ func (vc *VC) subRef(owner types.Type, i int, ref Term) Term {
 		r := Term{"r?", SInt}
 		app := App(SInt, fn, r)
 		vc.assumeGlobal(Forall([]Term{r}, [][]Term{{app}}, Eq(Ge(app, Term{"alloc0", SInt}), Ge(r, Term{"alloc0", SInt}))))
+		// the embedded struct of a non-nil object is not nil; embedded structs of different fields, or of
+		// different objects, are different objects
+		vc.assumeGlobal(Forall([]Term{r}, [][]Term{{app}}, Implies(Not(Eq(r, IntLit(0))), Gt(app, IntLit(0)))))
+		r2 := Term{"r2?", SInt}
+		app2 := App(SInt, fn, r2)
+		vc.assumeGlobal(Forall([]Term{r, r2}, [][]Term{{app, app2}}, Implies(Eq(app, app2), Eq(r, r2))))
+		for _, other := range vc.subFuncs {
+			oapp := App(SInt, other, r2)
+			vc.assumeGlobal(Forall([]Term{r, r2}, [][]Term{{app, oapp}}, Not(Eq(app, oapp))))
+		}
+		vc.subFuncs = append(vc.subFuncs, fn)
 	}
 	return App(SInt, fn, ref)
 }
